@@ -268,9 +268,10 @@ def asset_pattern(A):
         P[k] = A[k]
 
     def dt(s):
-        s = s.rstrip('Z')
-        d, t = s.split('T')
-        return [int(x) for x in d.split('-')] + [int(x) for x in t.split(':')]
+        # the instant as written: year .. second (zone designator and fraction do not change these fields)
+        import re
+        m = re.match(r'^\s*(\d{4})-?(\d{2})-?(\d{2})(?:[T ](\d{2}):?(\d{2}):?(\d{2}))?', s)
+        return [int(x) if x is not None else 0 for x in m.groups()]
     P['created'] = dt(A['created'])
     P['modified'] = dt(A['modified'])
     if A['unit'] is not None:
